@@ -293,7 +293,10 @@ def join_aux(source_name, source_key, source_delete,  # noqa: C901
                     # just empty the iterable
                     collections.deque(indexer(resource), maxlen=0)
                 else:
-                    yield indexer(resource)
+                    indexed = indexer(resource)
+                    yield indexed
+                    # every source row is indexed, also those a later step did not ask for
+                    collections.deque(indexed, maxlen=0)
                 if deduplication:
                     yield process_target(resource)
             elif name == target_name:
